@@ -12,6 +12,10 @@ CHECKS = {
             "DESIGN.md §3 C01",
             "Every case of two exhaustive configuration grids (scheme x E x B x parity x every length x cenc x signalling; FDT mode x interleave x multiplex x objects x queues x transfer count x receive-once x source x writer) is run through the real Sender and the real MultiReceiver and compared with the bytes and metadata given to the sender. Complete inside the grids, nothing outside them.",
             "Trusted: the harness's monitoring writer and its expected-metadata computation; third-party codecs at larger parameters; HashMap iteration order is not enumerated (oracles are order-invariant)."),
+    "C02": ("fault_enumeration", "exhaustive enumeration of all loss subsets / duplication multisets of recorded real sessions, each pushed into the real receiver", "gridx",
+            "DESIGN.md §3 C02",
+            "For every recorded session of up to 14 object packets (scheme x (k,parity) x block shape x interleave x signalling x transfer count) all 2^n loss subsets and all 3^n lost/once/twice vectors (n <= 9) are delivered, with the FDT first, only after the object, or never; whenever the harness's own RFC decode says the property's premise holds the real receiver must deliver exactly one complete byte-exact copy.",
+            "Trusted: the recoverability predicate (independent RFC decode + 128-bit partition reference); 'FDT late' = the recorded FDT packets re-delivered after the object; sessions above 14 packets are outside the bound (no sampling is used)."),
 }
 
 NOT_YET = {}
